@@ -57,7 +57,7 @@ def leak_signature(prop, exc):
 # transport faults
 # --------------------------------------------------------------------------------------
 
-FAULT_KINDS = ('flip', 'set', 'lenfield', 'trunc', 'drop', 'dup', 'swap', 'insert', 'splice', 'token')
+FAULT_KINDS = ('flip', 'set', 'lenfield', 'trunc', 'drop', 'dup', 'swap', 'insert', 'splice', 'token', 'name', 'fill')
 
 
 def apply_faults(stream, faults, res=None):
